@@ -3,7 +3,7 @@
 (*   "instant"  two instant-style questions (query / config / flags / metadata):      *)
 (*              one request each, lock key and request key in 1:1 correspondence      *)
 (*   "f10"      two range queries on the same expression and step with different      *)
-(*              look-backs: different lock keys, overlapping aligned slices           *)
+(*              look-backs: different lock keys, overlapping aligned slices (F10)     *)
 (*   "mixed"    one instant question and the two range queries                        *)
 EXTENDS PromClient
 
